@@ -81,6 +81,13 @@ pub fn generate(s: &mut Session, tier: &str, rng: &mut Rng) {
             one(s, rng, "domain", format!("d:{}:{}", hex(&name), port), &tail, accepted);
         }
     }
+    // names that spell an address literal (what an HTTP CONNECT to an IP produces: the target arrives as a name): they
+    // stay names, byte for byte, in both wire forms
+    for lit in ["10.0.0.1", "127.0.0.1", "255.255.255.255", "0.0.0.0", "1.2.3.4", "::1", "::", "2001:db8::1", "::ffff:1.2.3.4", "[::1]", "fe80::1%1", "0x7f.1", "1.2.3", "localhost"] {
+        let port = *rng.pick(&ports);
+        let tail = rng.bytes(3);
+        one(s, rng, "domain-spelling-an-address", format!("d:{}:{}", hex(lit.as_bytes()), port), &tail, true);
+    }
     let n = if thorough { 3000 } else { 300 };
     for i in 0..n {
         let port = if i < ports.len() { ports[i] } else { rng.next() as u16 };
